@@ -53,7 +53,10 @@ def gen_rulebook(rng, depth=3, prefix="undo", allow=DEFAULT_ALLOW, lvl=0, tag=""
             if "rewrite" in allow and sub < 0.15:
                 r.children = [RB.Rule("~", glob=True, rewrite=True)]
             elif "ordered" in allow and sub < 0.35:
-                if rng.random() < 0.5:
+                if "ordrw" in allow and rng.random() < 0.5:
+                    # entries of an ordered list whose bodies are rewritten as a whole (policy terms, route-filter bodies)
+                    r.children = [RB.Rule("q%d *" % lvl, ordered=True, children=[RB.Rule("~", glob=True, rewrite=True)])]
+                elif rng.random() < 0.5:
                     r.children = [RB.Rule("q%d ~" % lvl, ordered=True)]
                 elif flat:
                     r.children = [RB.Rule("q%d *" % lvl, ordered=True, children=[RB.Rule("y *")])]
@@ -65,6 +68,8 @@ def gen_rulebook(rng, depth=3, prefix="undo", allow=DEFAULT_ALLOW, lvl=0, tag=""
                 r.children = gen_rulebook(rng, depth, prefix, allow, lvl + 1, tag + str(i))
                 if "logic" in allow and lvl == 0 and rng.random() < 0.15:
                     r.logic = "common.permanent"  # the shipped use: interface blocks that cannot be deleted
+                elif "icblocks" in allow and rng.random() < 0.4:
+                    r.logic = "common.ignore_changes"  # a block that is created and removed, but whose own line is never rewritten
                 elif "urblocks" in allow and toks[-1] != "~" and rng.random() < 0.5:
                     # a block whose header carries a value after its key (`peer 10.0.0.1 as-number 100`): changing the value
                     # re-creates the block, which undo_redo is for
